@@ -56,15 +56,25 @@ def scenarios(thorough=False):
     out.append(S("map2-mc1-task-pass", {"StartAt": "M", "States": {"M": {"Type": "Map", "ItemsPath": "$.items", "MaxConcurrency": 1, "End": True,
         "Iterator": {"StartAt": "T", "States": {"T": T("g", Next="P"), "P": {"Type": "Pass", "End": True}}}}}},
         {"items": [1, 2]}, {"g": [("ok",)]}, {"g": 10}))
-    # a Parallel state whose failure is retried while the nested Parallel state of the other branch still has a Task outstanding,
-    # whose (late) error the Retry does not match: crash-free it is absorbed by the attempt that is over; after a crash that
-    # record is gone (C04-F9)
+    # a Parallel state whose failure is retried while the nested Parallel state of the other branch has a Task outstanding: the
+    # Task is cancelled with the attempt (since the engine's repair cc40c48; before it the Task's late error, which the Retry
+    # does not match, was absorbed crash-free and ended the execution after a crash)
     npar = {"Type": "Parallel", "End": True, "Branches": [{"StartAt": "X", "States": {"X": T("fx")}}]}
     out.append(S("par-retry-vs-late-nested-fail", {"StartAt": "P", "States": {
         "P": {"Type": "Parallel", "Next": "Z", "Retry": [{"ErrorEquals": ["EA"], "IntervalSeconds": 1, "MaxAttempts": 1, "BackoffRate": 1.0}],
               "Branches": [{"StartAt": "A", "States": {"A": T("fa")}}, {"StartAt": "N", "States": {"N": npar}}]},
         "Z": {"Type": "Pass", "End": True}}},
         {"x": 1}, {"fa": [("err", "EA", "m"), ("ok",)], "fx": [("err", "EX", "m"), ("ok",)]}, {"fa": 5, "fx": 40}))
+    # … and while an event of the other branch is still on its way (published, not yet delivered): crash-free it is dropped when
+    # it is delivered, by the record that the attempt is over; after a crash it is taken up, the branch goes on to its Task and
+    # that Task's error, which the Retry does not match, ends the execution (C04-F9)
+    chain = {"StartAt": "X1", "States": {"X1": {"Type": "Pass", "Next": "X2"}, "X2": {"Type": "Pass", "Next": "X3"},
+                                         "X3": {"Type": "Pass", "Next": "X"}, "X": T("fx")}}
+    out.append(S("par-retry-vs-late-branch-fail", {"StartAt": "P", "States": {
+        "P": {"Type": "Parallel", "Next": "Z", "Retry": [{"ErrorEquals": ["EA"], "IntervalSeconds": 1, "MaxAttempts": 1, "BackoffRate": 1.0}],
+              "Branches": [{"StartAt": "A", "States": {"A": T("fa")}}, chain]},
+        "Z": {"Type": "Pass", "End": True}}},
+        {"x": 1}, {"fa": [("err", "EA", "m"), ("ok",)], "fx": [("err", "EX", "m"), ("ok",)]}, {"fa": 0, "fx": 40}))
     # a Parallel state whose failure is caught while the other branch's Task is outstanding: the Task is cancelled, its event and
     # the failing one are let go, the late reply is an orphan
     out.append(S("par-catch-vs-pending-sibling", {"StartAt": "P", "States": {
@@ -474,7 +484,7 @@ def run(chk):
             ref_bag = request_bag(s)
             ops = s.broker.op_count.get("conn1", 0)
             try:
-                skel = cm.skeleton(machines_of(scn), rlab)
+                skel = cm.skeleton(machines_of(scn), rlab, scn.plans)
             except cm.Unsupported as e:
                 skel = None
                 chk.dist("skeleton.unsupported")
@@ -589,7 +599,7 @@ def run(chk):
     chk.cov["streams"]["between_handler_crash_points"] = n_between
     chk.cov["streams"]["broker_operation_crash_points"] = n_mid
     chk.cov["rule"] = ("%d scenarios (Task+Wait, two Tasks, Retry, Catch->Fail, Choice+Wait, Parallel success, Map with MaxConcurrency "
-                       "(all-Task iterations; Task->Pass iterations over two batches), Parallel with a failing branch, Parallel retried while a nested Parallel of another branch fails late, Parallel whose failure is caught while a sibling's Task is outstanding, synchronous child "
+                       "(all-Task iterations; Task->Pass iterations over two batches), Parallel with a failing branch, Parallel retried while a nested Parallel of another branch has a Task outstanding / while an event of another branch is on its way, Parallel whose failure is caught while a sibling's Task is outstanding, synchronous child "
                        "executions (unnamed, named, child ending in a handler of its own)%s) x {stores shared across the restart "
                        "(Redis-like), executions store lost (file configuration)} x every crash point between two handler invocations "
                        "of the canonical run (same status/output, <= 1 request per correlation id, one terminal notification, the same "
@@ -622,7 +632,7 @@ def replay(chk, path):
     s, ea, rlab = reference(scn, share)
     ref, _, _ = observe(s, ea)
     try:
-        skel = cm.skeleton(machines_of(scn), rlab)
+        skel = cm.skeleton(machines_of(scn), rlab, scn.plans)
     except cm.Unsupported as e:
         skel = None
         print("skeleton: unsupported (%s)" % e)
